@@ -62,7 +62,13 @@ class SMATrendAlpha(object):
 
     def __call__(self, dt):
         assets = self.universe.get_assets(dt)
-        w = {a: 0.0 for a in assets}
+        # one dictionary, kept sorted by asset and refreshed in place at every rebalance (the caller gets the same
+        # object each time, as a model that avoids allocations would do)
+        if not hasattr(self, '_w') or sorted(self._w) != sorted(assets):
+            self._w = {a: 0.0 for a in sorted(assets)}
+        w = self._w
+        for a in w:
+            w[a] = 0.0
         if self.signals.warmup >= self.slow:
             for a in self.signals['sma'].assets:
                 if a in w and self.signals['sma'](a, self.fast) > self.signals['sma'](a, self.slow):
@@ -139,7 +145,20 @@ class HistCloseAlpha(object):
         return w
 
 
+class WindowUniverse(object):
+    """User-defined universe (the documented interface is get_assets(dt)) whose members enter AND leave."""
+
+    def __init__(self, spans):
+        self.spans = spans
+
+    def get_assets(self, dt):
+        return [a for a, (lo, hi) in self.spans.items() if lo is not None and lo <= dt and (hi is None or dt < hi)]
+
+
 def build_universe(q, ucfg):
+    if ucfg['kind'] == 'window':
+        return WindowUniverse({a: (None if lo is None else cal.ts6(lo), None if hi is None else cal.ts6(hi))
+                               for a, (lo, hi) in ucfg['spans'].items()})
     if ucfg['kind'] == 'static':
         return q.StaticUniverse(list(ucfg['assets']))
     return q.DynamicUniverse({a: (None if v is None else cal.ts6(v)) for a, v in ucfg['dates'].items()})
@@ -206,12 +225,19 @@ def run_session(cfg, csv_path, symbols, data_source=None, probe_signals=False, h
             out = {}
             for name, s in sig.items():
                 lbs = cfg['signals'][name]
-                for a in list(s.assets):
+                # the watch list: every asset the signal's universe will ever contain, entered or not (a signal
+                # asked about an asset it does not track yet answers with KeyError)
+                ucfg_ = cfg.get('signal_universe') or cfg['universe']
+                watch = list(ucfg_['assets'] if ucfg_['kind'] == 'static' else ucfg_['dates'])
+                tracked = list(s.assets)
+                for a in tracked + [x for x in watch if x not in tracked]:
                     for lb in lbs:
                         try:
-                            out[(name, a, lb)] = float(s(a, lb))
+                            v = float(s(a, lb))
                         except KeyError:
-                            out[(name, a, lb)] = 'no_buffer'
+                            v = 'no_buffer'
+                        if a in tracked:
+                            out[(name, a, lb)] = v
             return out
     inner_alpha = alpha
     alpha = RecordingAlpha(alpha, probe)
@@ -275,15 +301,19 @@ def run_session(cfg, csv_path, symbols, data_source=None, probe_signals=False, h
     r.fills = [(t.dt, t.asset, t.quantity, t.price, t.commission) for _, t in log]
     r.history = [(e.dt, e.type, e.description, e.debit, e.credit, e.balance) for e in port.history]
     r.equity_curve = list(bt.equity_curve)
-    r.allocations = list(holder['stats']['target_allocations']) if holder.get('stats') else list(bt.target_allocations)
+    raw_alloc = list(holder['stats']['target_allocations']) if holder.get('stats') else list(bt.target_allocations)
+    # the per-rebalance record is read as documented (dicts with a 'Date'); should the code keep it in another shape,
+    # only the public table below is compared
+    native = all(isinstance(x, dict) and 'Date' in x for x in raw_alloc)
+    r.allocations = raw_alloc if native else []
     r.cash = port.cash
     r.holdings = {a: d['quantity'] for a, d in port.portfolio_to_dict().items()}
     r.data_handler = r_dh
     # the public allocation table (one row per equity date), when it can be built
     r.alloc_table = []
-    if r.allocations and r.equity_curve:
+    if raw_alloc and r.equity_curve:
         try:
-            bt.target_allocations = r.allocations
+            bt.target_allocations = raw_alloc
             tab = bt.get_target_allocations()
             r.alloc_table = [(d, [(c, tab.loc[d][c]) for c in tab.columns]) for d in tab.index]
         except Exception as e:                                   # noqa
